@@ -353,6 +353,16 @@ type dctx struct {
 	v2   bool
 }
 
+// v1CoincidesOn lists the unspecified cells of the reference on which v1 and v2 are required to
+// agree with each other (cells that do not touch a documented difference of the dialects).
+var v1CoincidesOn = map[string]bool{
+	"indexing through a missing map key": true,
+	"membership across int/float":        true,
+	"membership of NaN":                  true,
+	"slice bound evaluating to nil":      true,
+	"slice of a non-ASCII string":        true,
+}
+
 // DifferentialV2 runs a single-script program on the real v2 interpreter and
 // on the reference in its v2 dialect; compares probe trace and error flag.
 func DifferentialV2(p *Prog) Verdict {
@@ -387,6 +397,19 @@ func DifferentialV2(p *Prog) Verdict {
 		}
 		if w.Unspec != "" {
 			v.Skipped, v.OK = w.Unspec, true
+			// where the reference has no opinion the two interpreters still have to coincide
+			// ("the same programs are also run on the v1 interpreter where the languages coincide")
+			if !canceled && v1CoincidesOn[w.Unspec] {
+				if l1, e1 := drv.Load(map[string]string{p.Main: src}); len(e1) == 0 {
+					sig1 := &drv.Sig{FireAt: realPollCap}
+					r1 := drv.Run(l1[p.Main], PointSpec{Meas: "m"}.real().Build(), sig1)
+					v1Out := strings.Join(r1.Trace, ";") + "|" + fmt.Sprint(r1.Err != nil)
+					if r1.Panic == "" && sig1.N < realPollCap && v1Out != realOut {
+						v.Skipped, v.OK, v.Key = "", false, "v1-and-v2-disagree:"+strings.ReplaceAll(w.Unspec, " ", "-")
+						v.What = fmt.Sprintf("program (shared language, cell `%s` not pinned by the reference):\n%s\nv2: trace=%v err=%v\nv1: trace=%v err=%v", w.Unspec, src, res.Trace, res.Err, r1.Trace, r1.Err)
+					}
+				}
+			}
 			return v
 		}
 		if canceled || w.OutOfGas {
